@@ -39,7 +39,7 @@ def refuteLine (c : LineCase) : Bool :=
 
 /-- Soundness of the equivalence checker (L9): if the derivative bisimulation over the
     representative alphabet closes, regex and automaton agree on ALL strings of code points. -/
-theorem re_equiv_sound (r : Re) (D : Dfa) (hD : D.aut.Respects) (fuel : Nat)
+theorem re_equiv_sound (r : Re) (D : SpecDfa) (hD : D.aut.Respects) (fuel : Nat)
     (h : reEquivDfa r D fuel = true) : ∀ w, matchesRe r w = D.accepts w :=
   ParolModel.re_equiv_sound r D hD fuel h
 
